@@ -220,6 +220,8 @@ def run(ctx):
         var = []
         for ev in reads:
             a = strip(ev[2][1])
+            if a[0] == 'call' and re.search(r'Option::<T>::ok_or(_else)?$', a[1]) and a[3]:
+                a = strip(a[3][0])        # `x.checked_sub(K).ok_or_else(err)?`: the value is the Some payload
             if a[0] == 'const':
                 consts.append(a[1])
             else:
@@ -261,6 +263,10 @@ def run(ctx):
                             g = True
                     if csub is not None and e[0] == 'discr' and strip(e[1]) == csub and br[3] == 1:
                         g = True        # the Some arm of checked_sub(K): length >= K
+                    if csub is not None and e[0] == 'discr' and br[3] == 0:
+                        x_ = strip(e[1])
+                        if x_[0] == 'call' and re.search(r'Option::<T>::ok_or(_else)?$', x_[1]) and x_[3] and strip(x_[3][0]) == csub:
+                            g = True    # the Continue edge of `checked_sub(K).ok_or_else(..)?`
                 ctx.check(g, 'R13.3', key + ':guard',
                           'Ok(%s) path: the subtraction (length - %d) is preceded on the path by the failed test length < %d'
                           % (kind, K, K), where(rd, reads[-1][1].block),
@@ -273,6 +279,15 @@ def run(ctx):
                 plv = unwrap_cast(pl)
                 ctx.check(plv[0] == 'call' and plv[2] == reads[-1][1].block, 'R13.2', key + ':payload',
                           'Ok(%s) returns exactly the bytes of the last (payload) read' % kind, where(rd, reads[-1][1].block))
+        elif rk == 'prop' and any(strip(br[2])[0] == 'discr' and br[3] == 1 and strip(strip(br[2])[1])[0] == 'call'
+                                  and re.search(r'Option::<T>::ok_or(_else)?$', strip(strip(br[2])[1])[1]) and strip(strip(br[2])[1])[3]
+                                  and strip(strip(strip(br[2])[1])[3][0])[0] == 'call' and strip(strip(strip(br[2])[1])[3][0])[1].endswith('::checked_sub')
+                                  for br in path_branches(st)):
+            # `length.checked_sub(K).ok_or_else(err)?` taken on its error edge: the rejecting path of the header guard
+            n_guard_err += 1
+            ctx.check(not var, 'R13.3', 'read:err:prop%d' % (path[-3] if len(path) > 2 else 0),
+                      'length-below-header branch returns Err without reading a payload', rd.where(),
+                      'tpkt::Client::read reads a payload on the path that rejects a too-short declared length')
         elif rk == 'err':
             # an explicit Err: must be the true edge of a Lt(length, K) guard and no payload read after it
             lt = [br for br in path_branches(st) if strip(br[2])[0] == 'bin' and strip(br[2])[1] == 'Lt' and branch_truth(br)]
